@@ -243,14 +243,6 @@ def translate_lbasis(model: Model, info: ElementInfo) -> None:
             if not isinstance(r, tuple) or len(r) < 1:
                 raise Unsupported("lbasis does not return a tuple")
             basis.append(r)
-        # exhaustiveness: index N must reach the error helper / a raise
-        it = Interp(model)
-        try:
-            r = it.call(lb, [coord_point(info.dim), info.nbfun], {},
-                        self_obj=Obj(c))
-            info.else_raises = False
-        except Raised:
-            info.else_raises = True
         info.basis = basis
         info.approx = Approx.used
     except Raised as e:
@@ -260,6 +252,18 @@ def translate_lbasis(model: Model, info: ElementInfo) -> None:
         info.why_not = f"RAISED-EARLY:{e.what}:{len(basis)}"
     except Unsupported as e:
         info.why_not = f"outside grammar: {e}"
+        return
+    # exhaustiveness: index N must reach the error helper / a raise
+    try:
+        Interp(model).call(lb, [coord_point(info.dim), info.nbfun], {},
+                           self_obj=Obj(c))
+        info.else_raises = False
+    except Raised:
+        info.else_raises = True
+    except Unsupported:
+        # e.g. falls through to 'return phi, dphi' with phi never bound:
+        # at run time that is an UnboundLocalError, not the index error
+        info.else_raises = False
 
 
 # ----------------------------------------------------------------------
